@@ -294,10 +294,28 @@ func TestVF_Cache(t *testing.T) {
 }
 
 // minimised regression histories, run before anything generated
+// a larger cache whose only expired entry sits deep in the recency list (position pos from the LRU end):
+// the victim of the next insertion must still be that expired entry, however far the scan has to go
+func vfDeepExpiredCase(capacity, pos int) *vfCacheCase {
+	h := int64(time.Hour)
+	cs := &vfCacheCase{Kind: "corpus-deep", Cap: capacity}
+	for k := 0; k < capacity; k++ {
+		ttl := 100 * h
+		if k == pos {
+			ttl = h
+		}
+		cs.Ops = append(cs.Ops, vfCacheOp{O: "set", K: k, V: int64(k + 1), TTL: ttl})
+	}
+	cs.Ops = append(cs.Ops, vfCacheOp{O: "adv", D: int64(61 * time.Minute)},
+		vfCacheOp{O: "set", K: capacity, V: 999, TTL: h}, vfCacheOp{O: "get", K: 0}, vfCacheOp{O: "get", K: pos})
+	return cs
+}
+
 func vfCacheCorpus() []*vfCacheCase {
 	h := int64(time.Hour)
 	m := int64(time.Minute)
 	return []*vfCacheCase{
+		vfDeepExpiredCase(40, 35), vfDeepExpiredCase(70, 64),
 		{Kind: "corpus", Cap: 2, Ops: []vfCacheOp{ // LRU victim is the least recently *used*, reads count
 			{O: "set", K: 0, V: 1, TTL: h}, {O: "set", K: 1, V: 2, TTL: h}, {O: "get", K: 0},
 			{O: "set", K: 2, V: 3, TTL: h}, {O: "get", K: 0}, {O: "get", K: 1}, {O: "get", K: 2}}},
